@@ -27,7 +27,7 @@ ASSUMPTIONS = [
 RULE = ("one run = one generator call family with parameters from the seed: contracts of the returned object checked exactly as stated; "
         "same-seed calls are repeated with the global PRNG state perturbed and another generator run in between.  Non-trivial: the call "
         "drew >= 3 random values and >= 1 adversarial draw or perturbation happened; distinct = draw-trace digests.")
-TIERS = {"quick": {"runs": 4000, "wall_cap": 240, "det_seeds": 12, "min_tests": 300},
+TIERS = {"quick": {"runs": 24000, "wall_cap": 240, "det_seeds": 12, "min_tests": 300},
          "thorough": {"runs": 100000, "wall_cap": 3000, "det_seeds": 40, "min_tests": 1000}}
 FAMILIES = ["random_hypergraph", "random_uniform", "scale_free", "hoad", "add_random_edge", "add_random_edges",
             "shuffle", "shuffle_all"]
@@ -332,3 +332,7 @@ def simplify(case):
             if "scale" in c2:
                 del c2["scale"][i]
             yield c2
+
+
+def sim_time(stats):
+    return {"unit": "random draws served to the generators (logical steps)", "value": sum(stats.get("draws", {}).values())}
